@@ -213,6 +213,13 @@ Json World::result() const {
             for (int e : sessions[sj]->obsExact) ex.push(e);
             r.set("obs", ob); r.set("obs_exact", ex);
         }
+        // the same session a second time in this process (C20 "repeat" variant D)
+        long s2 = plan.i("subject2", -1);
+        if (s2 >= 0 && s2 < (long)sessions.size()) {
+            Json ob = Json::arr();
+            for (auto &o : sessions[s2]->obs) { Json a = Json::arr(); for (double d : o) a.push(d); ob.push(a); }
+            r.set("obs2", ob);
+        }
     }
     if (log.trace) r.set("trace", log.text);
     return r;
